@@ -295,7 +295,12 @@ fn decimal_search(n: u64) {
             let mut wire = std::io::Cursor::new(Vec::new());
             {
                 let mut w = Connection::new(&mut wire);
-                for v in chunk { w.write_frame(&Frame::Integer(*v)).await.unwrap(); }
+                for v in chunk {
+                    if let Err(e) = w.write_frame(&Frame::Integer(*v)).await {
+                        println!("{{\"found\": true, \"kind\": \"decimal\", \"props\": \"C08,C06\", \"value\": {}, \"observed\": {}, \"expected\": {}}}", v, js(&format!("write_frame(Integer({})) returned Err({})", v, e)), js("the frame is written"));
+                        std::process::exit(0);
+                    }
+                }
             }
             let mut want = Vec::new();
             for v in chunk { want.push(b':'); want.extend(dec(*v)); want.extend(b"\r\n"); }
@@ -417,7 +422,8 @@ mod store {
     fn conf(dir: &std::path::Path, max: u64) -> Config {
         let mut c = Config::default();
         // background merges are kept out of the way by a check interval of ~11 days
-        c.path(dir).concurrency(1).max_file_size(max).sync(SyncStrategy::None).merge_check_interval_ms(1_000_000_000).merge_check_jitter(0.0);
+        let sync = if std::env::var("VERIF_SYNC").map(|v| v == "always").unwrap_or(false) { SyncStrategy::Always } else { SyncStrategy::None };
+        c.path(dir).concurrency(1).max_file_size(max).sync(sync).merge_check_interval_ms(1_000_000_000).merge_check_jitter(0.0);
         c
     }
     fn files(dir: &std::path::Path) -> Vec<String> {
@@ -499,6 +505,9 @@ mod store {
             (0, "all", "set a 1; set b 2; merge; merge; checkall; set c 3; merge; reopen; checkall; checkstats"),
             (30, "dead", "set a 1; set b 2; set a 3; merge; checkall; reopen; checkall; checkstats"),
             (0, "all", "precreate-data 1; set a 1; set b 2; get a; get b; reopen; get a; get b"),
+            // partial merge: an old file keeps a stale record of `a` (1 of 3 dead: not selected) while the file holding its live record is merged
+            (64, "frag50", "set a 1; set b 1; set c 1; set a 2; set x 1; set x 2; set x 3; merge; checkall; reopen; checkall; get a; merge; reopen; checkall"),
+            (64, "frag50", "set a 1; set b 1; set c 1; set x 0; set a 2; set x 1; set x 2; set y 1; set y 2; merge; checkall; reopen; checkall; reopen; checkall"),
         ];
         for (max, mode, ops) in curated.iter() {
             let v: Vec<&str> = ops.split(';').map(|s| s.trim()).collect();
@@ -525,7 +534,27 @@ mod store {
             let v: Vec<&str> = ops.iter().map(|s| s.as_str()).collect();
             run_history(max, "all", &v, "history");
         }
-        println!("{{\"found\": false, \"searched\": \"7 curated and 40 pseudo-random histories (set/del/get/merge/reopen over 3 keys, max_file_size in 0,40,100,1M) against the map model incl. live-key accounting\"}}");
+        // partial merges (only files holding dead entries / fragmented files are selected): overwrites but NO deletes, so the
+        // known tombstone finding (a dropped tombstone resurrecting an older value) cannot interfere
+        for round in 0..24 {
+            let max = [40u64, 100, 64][next(3) as usize];
+            let mode = ["dead", "frag50"][(round % 2) as usize];
+            let n = 10 + next(16);
+            let mut ops: Vec<String> = Vec::new();
+            for _ in 0..n {
+                let k = format!("k{}", next(4));
+                match next(10) {
+                    0..=5 => ops.push(format!("set {} v{}", k, next(7))),
+                    6 => ops.push("merge".into()),
+                    7 => ops.push("reopen".into()),
+                    _ => ops.push(format!("get {}", k)),
+                }
+            }
+            ops.push("merge".into()); ops.push("checkall".into()); ops.push("reopen".into()); ops.push("checkall".into()); ops.push("reopen".into()); ops.push("checkall".into());
+            let v: Vec<&str> = ops.iter().map(|s| s.as_str()).collect();
+            run_history(max, mode, &v, "history");
+        }
+        println!("{{\"found\": false, \"searched\": \"9 curated, 40 pseudo-random histories with full merges and 24 with partial merges (no deletes), (set/del/get/merge/reopen over 3 keys, max_file_size in 0,40,100,1M) against the map model incl. live-key accounting\"}}");
     }
 
     /// D11: an append that fails mid-entry (RLIMIT_FSIZE makes write(2) fail with EFBIG after a partial write)
